@@ -3,8 +3,16 @@
 Lean: Props/C09.lean (about `runOp` of Model/Store.lean: a failed call leaves the committed file unchanged for every
 operation, statement index and fault kind; death commits nothing unless it happens after the commit; a call that
 returns normally committed the fault-free effect, except for the swallowed IntegrityError inside overwrite = S28).
+Props/C09/Foreign.lean: a fault raised INSTEAD of statement k leaves the body with exactly that exception (`fault_before_statement_raises`),
+the outcome is the one `with_connection`'s `except` clauses give it (`fault_before_statement_outcome`), and an exception that is NO
+sqlite3.Error (`FaultKind.foreign`: OverflowError / UnicodeEncodeError while a value is bound, an exception of the module between two
+statements, KeyboardInterrupt, MemoryError …) at any statement commits nothing and the repeated call commits the fault-free effect
+(`foreign_exception_commits_nothing`).
 Tie: EXHAUSTIVE fault enumeration on the real code — every public write operation x every `cursor.execute` index
-k = 0..n (n = the commit) x {IntegrityError, InterfaceError, OperationalError raised by statement k; process exit before /
+k = 0..n (n = the commit) x {IntegrityError, InterfaceError, OperationalError raised by statement k; an exception OUTSIDE the sqlite3
+hierarchy raised by statement k — 'foreign': OverflowError, UnicodeEncodeError, MemoryError, ValueError, TypeError, KeyError, RecursionError,
+OSError, sqlite3.Warning, the library's ParsingError; 'interrupt': KeyboardInterrupt, SystemExit, GeneratorExit, CancelledError — the
+classes take turns; 'dberror' (sampled): the other sqlite3.Error classes the wrapper does not translate; process exit before /
 after statement k; exit just before / after commit} on databases with prior content.  `pygaps.parsing.sqlite.sqlite3`
 is replaced in this process by a counting proxy (exits run in a forked child).  After every run the file is read
 through an independent connection and compared with the model's committed state; then the operation is repeated.
@@ -27,7 +35,15 @@ isotherm larger than the default cache;
 played back), then integrity_check / foreign_key_check and the table comparison; a malformed or torn file is reported with the
 operation, k, fault kind and cache size;
 (4) "everything stored remains retrievable": the library's own readers (isotherms_from_db, materials_from_db, adsorbates_from_db,
-isotherm_types_from_db) must not raise on the file after the fault and must return exactly what the tables hold (quick: every 6th run).
+isotherm_types_from_db) must not raise on the file after the fault and must return exactly what the tables hold (quick: every 6th run);
+(5) DATA FAULTS (pgv/bindfault.py): the same clauses for calls that fail part-way BY THEMSELVES, run against the real sqlite3 module without any
+proxy: every user value of every upload / overwrite / deletion (name, j-th property key, j-th property value or list element, j-th metadata key /
+value, the properties of the auto-inserted material, name and cells of a supplementary data column, type / unit / description of a property
+type, the key of a deletion) is replaced, one at a time, by a value the sqlite3 driver rejects while it binds the statement (ints outside 64 bit,
+strs with a lone surrogate) or the module rejects between two statements (complex / unserialisable cells).  After the failed call: file = before,
+integrity, retrievability, and the REPAIRED operation succeeds with its fault-free effect; a value that is accepted after all must be stored
+completely (as many rows per table as the valid operation).  A second run under a counting proxy gives the index k of the `cursor.execute` call that
+raised; the model's `runOp (k, .foreign)` of the valid operation must give the same outcome and content.
 """
 import copy
 import os
@@ -35,12 +51,18 @@ import shutil
 import tempfile
 
 import c08  # noqa: F401
+from pgv import bindfault as bf
 from pgv import crashenv as ce
 from pgv import storelib as sl
 from pgv.core import import_pygaps
 from pgv.models import make
 
-KINDS = ["integrity", "interface", "operational", "exitBefore", "exitAfter"]
+#: fault kinds of the harness.  The first five are raised INSTEAD of statement k; 'foreign' (an Exception subclass outside sqlite3.Error) and
+#: 'interrupt' (a BaseException that is no Exception) are both `FaultKind.foreign` of Model/Store.lean, 'dberror' (a sqlite3.Error that is neither
+#: Integrity- nor InterfaceError nor OperationalError; sampled) is `.operational`: the exception class of each run is drawn from crashenv.exception_classes
+KINDS = ["integrity", "interface", "operational", "foreign", "interrupt", "exitBefore", "exitAfter"]
+STATEMENT_KINDS = KINDS[:5]
+MODEL_KIND = {"interrupt": "foreign", "dberror": "operational"}
 
 
 def run(ck):
@@ -206,7 +228,7 @@ def _run(ck, pg, pgsql, files):
     variants = [0, 1, 2] if thorough else [1, 2]
     lines, plan = [], []
     slot = 0
-    stats = {"runs": 0, "small_cache_runs": 0, "hot_journals_played_back": 0, "big_upload_runs": 0, "retrievals": 0, "failing_inputs_beyond_the_first_40_of_their_clause": 0}
+    stats = {"runs": 0, "data_fault_runs": 0, "data_faults_not_constructible": 0, "data_faults_between_statements": 0, "data_fault_max_k": 0, "small_cache_runs": 0, "hot_journals_played_back": 0, "big_upload_runs": 0, "retrievals": 0, "failing_inputs_beyond_the_first_40_of_their_clause": 0}
     default_env = ce.default_env(files.new())
     env_seen = {}          # observed environment (as sent to Drv/Pager) -> first operation that ran in it
     suspicious_ops = []
@@ -273,15 +295,141 @@ def _run(ck, pg, pgsql, files):
         _reset_mem(pg, mem0)
         return got
 
+    exc_classes = ce.exception_classes(pgsql)
+    exc_turn = {kind: rng.randrange(len(cl)) for kind, (_, cl) in exc_classes.items()}
+    exc_used = {}
+
+    def draw_exception(kind):
+        """the exception class of this run: the classes of a kind take turns (the start depends on the seed), so that every operation meets
+        every class within a few statement positions -> (class name or None, factory or None)"""
+        if kind not in exc_classes:
+            return None, None
+        cl = exc_classes[kind][1]
+        exc_turn[kind] = (exc_turn[kind] + 1) % len(cl)
+        name, make_exc = cl[exc_turn[kind]]
+        exc_used[name] = exc_used.get(name, 0) + 1
+        return name, make_exc
+
     def one_fault(base, thunk, k, kind, cache):
+        """-> (file after the run, outcome, name of the exception class raised instead of statement k or None)"""
         path = files.new()
         shutil.copy(base, path)
-        fplan = ce.Plan(k, kind, cache=cache)
+        raised, make_exc = draw_exception(kind)
+        fplan = ce.Plan(k, MODEL_KIND.get(kind, kind), cache=cache, exc=make_exc)
         if kind.startswith("exit"):
             out = ce.in_child(pgsql, fplan, lambda: thunk(path))
         else:
-            out = sl.outcome_of(ce.with_fault(pgsql, fplan, lambda: thunk(path)))
-        return path, out
+            out = ce.outcome_of(ce.with_fault(pgsql, fplan, lambda: thunk(path)), fplan.planted)
+        return path, out, raised
+
+    # ------------------------------------------------------------------ failures provoked by the input itself: no proxy, no planted fault
+    turn = {"str": rng.randrange(64), "any": rng.randrange(64), "cells": rng.randrange(64)}
+
+    def data_faults(variant, base, base_slot, before, mem0, stored_isos):
+        """Every user value of every upload / overwrite / deletion replaced, one at a time, by a value the sqlite3 driver rejects while it BINDS
+        the statement (int outside 64 bit: OverflowError; lone surrogate: UnicodeEncodeError) or the module rejects between two statements
+        (unsupported / unserialisable column cells): the call fails at that position of its statement sequence with an exception that is no
+        sqlite3.Error.  The calls run against the REAL sqlite3 module.  Afterwards: file = before, integrity, retrievability, and the repaired
+        (valid) operation succeeds with its fault-free effect.  Correspondence: the same call once more under a counting proxy gives the index
+        k of the `cursor.execute` call that raised; Model/Store.lean `runOp … (k, .foreign)` of the VALID operation must agree."""
+        nonlocal slot
+        for spec in bf.specs(variant, stored_isos):
+            try:
+                valid = spec.build(pg, pgsql)
+            except Exception as e:  # noqa
+                ck.broken.append({"step": f"data faults: the valid operation {spec.label} cannot be built", "what": repr(e)[:300]})
+                continue
+            p0 = files.new()
+            shutil.copy(base, p0)
+            plan0 = ce.Plan()
+            e0 = ce.with_fault(pgsql, plan0, lambda: valid(p0))
+            n, out0 = plan0.count, ce.outcome_of(e0)
+            after, _, _ = sl.read_tables(p0)
+            _reset_mem(pg, mem0)
+            memline = f"mem [{';'.join(mem0[0])}] [{';'.join(mem0[1])}]"
+            slot += 1
+            lines.extend([f"copy {base_slot} {slot}", f"use {slot}", memline, "op - " + spec.model_line])
+            plan.extend([None, None, None, ("free", spec.label, out0, n, sl.dump_tables(after), spec.model_line)])
+            ck.count(("fault-free", spec.label, variant, "data"), bucket="fault-free:" + out0)
+            for position, accepts in spec.positions():
+                choices = bf.BAD_CELLS if accepts == "cells" else bf.poisons_for(accepts)
+                picked = []
+                for _ in range(ck.n(1, len(choices))):
+                    turn[accepts] += 1
+                    picked.append(choices[turn[accepts] % len(choices)])
+                for pname, value in picked:
+                    where = "/".join(str(x) for x in position if x is not None)
+                    sig = {"operation": spec.label, "variant": variant, "rejected value": f"{pname} {value!a}"[:60], "in place of": where}
+                    try:
+                        thunk = spec.build(pg, pgsql, position, value)
+                    except Exception:  # noqa  (the constructor of the object refuses the value: no database call takes place)
+                        thunk = None
+                    if thunk is None:
+                        stats["data_faults_not_constructible"] += 1
+                        _reset_mem(pg, mem0)
+                        continue
+                    path = files.new()
+                    shutil.copy(base, path)
+                    try:
+                        thunk(path)
+                        e = None
+                    except BaseException as ex:  # noqa
+                        e = ex
+                    out = ce.outcome_of(e)
+                    stats["data_fault_runs"] += 1
+                    raised = type(e).__name__ if e is not None else None
+                    ck.count((spec.label, variant, where, pname, repr(value)), nontrivial=True, bucket=f"data fault:{raised or 'accepted'}",
+                             sample={**sig, "outcome": out, "raised": raised} if stats["data_fault_runs"] % 41 == 0 else None)
+                    sig["raised"] = raised
+                    hot, integ_rw = ce.recover(path)
+                    got, integ, fk, err = ce.safe_read(path)
+                    if got is None or integ_rw != [("ok",)] or integ != [("ok",)] or fk:
+                        report({**sig, "clause": "integrity_check / foreign_key_check"},
+                               {"integrity (read-write connection)": str(integ_rw)[:400], "integrity": str(integ)[:400], "fk": str(fk)[:300], "read error": err})
+                    if got is None:
+                        _reset_mem(pg, mem0)
+                        continue
+                    if e is not None and got != before:
+                        report({**sig, "clause": "failed call changed the database", "outcome": out},
+                               {"error": f"{type(e).__name__}: {e}"[:200], "diff": _diff(before, after, got), "n_statements of the valid operation": n})
+                    elif e is None and [len(got[t]) for t in sl.ORDER] != [len(after[t]) for t in sl.ORDER]:
+                        # the value was not rejected after all: then everything handed in has to be there (as many rows per table as the valid operation stores)
+                        report({**sig, "clause": "neither the complete effect nor none of it", "outcome": out},
+                               {"rows per table": {t: [len(before[t]), len(got[t]), len(after[t])] for t in sl.ORDER if len(got[t]) != len(after[t])},
+                                "meaning": "[before, after this call, after the valid operation]", "diff": _diff(before, after, got)})
+                    retrievable(sig, path, got)
+                    if e is not None and got == before:
+                        # "the same operation can be repeated successfully afterwards": the user repairs the value and repeats the call (same session)
+                        try:
+                            valid(path)
+                            e2 = None
+                        except BaseException as ex:  # noqa
+                            e2 = ex
+                        out2 = ce.outcome_of(e2)
+                        got2, _, _, err2 = ce.safe_read(path)
+                        if out2 != out0 or got2 != after:
+                            report({**sig, "clause": "the operation cannot be repeated after the failure", "retry_outcome": out2, "fault_free_outcome": out0},
+                                   {"error": repr(e2)[:300], "diff": _diff(before, after, got2) if got2 is not None else err2})
+                    _reset_mem(pg, mem0)
+                    if e is None:
+                        continue
+                    # ---------------- which statement was it?  (counting proxy, nothing planted) -> the model's run of the valid operation
+                    pathc = files.new()
+                    shutil.copy(base, pathc)
+                    planc = ce.Plan()
+                    ec = ce.with_fault(pgsql, planc, lambda: thunk(pathc))
+                    _reset_mem(pg, mem0)
+                    gotc, _, _, _ = ce.safe_read(pathc)
+                    if type(ec) is not type(e):
+                        ck.broken.append({"step": "data faults: the call behaves differently under the counting proxy", "what": {"case": sig, "without": repr(e)[:200], "with": repr(ec)[:200]}})
+                        continue
+                    k = planc.raised_in if planc.raised_in is not None else planc.count
+                    stats["data_faults_between_statements"] += planc.raised_in is None
+                    stats["data_fault_max_k"] = max(stats["data_fault_max_k"], k)
+                    if gotc is not None and k < n:
+                        slot += 1
+                        lines.extend([f"copy {base_slot} {slot}", f"use {slot}", memline, f"op {k}:foreign " + spec.model_line])
+                        plan.extend([None, None, None, ("fault", {**sig, "k": k, "fault": "foreign (raised by the call itself)"}, ce.outcome_of(ec), n, sl.dump_tables(gotc), spec.model_line)])
 
     for variant in variants:
         base = files.new()
@@ -352,21 +500,24 @@ def _run(ck, pg, pgsql, files):
                 ks = [k for k in ks if k >= n - 3]      # the megabytes are written by the last two statements
             caches = list(ce.CACHE_PAGES)
             for k in ks:
-                for kind in KINDS:
-                    if k == n and kind in ("integrity", "interface", "operational"):
+                # the other sqlite3.Error classes the wrapper does not translate: every position in the thorough tier / off-default, else one in three
+                for kind in KINDS + (["dberror"] if exhaustive_op or rng.random() < 1 / 3 else []):
+                    if k == n and not kind.startswith("exit"):
                         continue           # the commit itself is only exposed to process death
                     if not modelled and not kind.startswith("exit"):
                         continue
-                    path, out = one_fault(base, thunk, k, kind, None)
+                    path, out, raised = one_fault(base, thunk, k, kind, None)
                     stats["runs"] += 1
                     stats["big_upload_runs"] += 0 if modelled else 1
                     sig = {"operation": label, "k": k if k < n else "commit", "fault": kind, "variant": variant}
+                    if raised:
+                        sig["raised instead of the statement"] = raised
                     ck.count((label, k, kind, variant), nontrivial=True, bucket=f"fault:{kind}:{out}",
                              sample={**sig, "n_statements": n, "outcome": out} if stats["runs"] % 173 == 0 else None)
                     got = after_fault(sig, path, out, out0, before, after, n, k, kind, thunk, mem0)
                     slot += 1
                     if modelled and got is not None:
-                        lines += [f"copy {base_slot} {slot}", f"use {slot}", f"mem [{';'.join(mem0[0])}] [{';'.join(mem0[1])}]", f"op {k}:{kind} " + mline]
+                        lines += [f"copy {base_slot} {slot}", f"use {slot}", f"mem [{';'.join(mem0[0])}] [{';'.join(mem0[1])}]", f"op {k}:{MODEL_KIND.get(kind, kind)} " + mline]
                         plan += [None, None, None, ("fault", sig, out, n, sl.dump_tables(got), mline)]
                 # ------------------------------------------------ the same position with a small page cache: SQLite spills dirty pages into the file
                 # before the commit (what it does by itself on large uploads); the two deaths, and one statement fault
@@ -375,14 +526,17 @@ def _run(ck, pg, pgsql, files):
                 for cache in (caches if exhaustive_op else rng.sample(caches, ck.n(1, len(caches)))):
                     kinds = ["exitBefore", "exitAfter"]
                     if k < n:
-                        kinds += (KINDS[:3] if exhaustive_op else [rng.choice(KINDS[:3])])
+                        kinds += (STATEMENT_KINDS + ["dberror"] if exhaustive_op else [rng.choice(STATEMENT_KINDS)])
                     for kind in kinds:
-                        path, out = one_fault(base, thunk, k, kind, cache)
+                        path, out, raised = one_fault(base, thunk, k, kind, cache)
                         stats["runs"] += 1
                         stats["small_cache_runs"] += 1
                         sig = {"operation": label, "k": k if k < n else "commit", "fault": kind, "variant": variant, "page_cache_pages": cache}
+                        if raised:
+                            sig["raised instead of the statement"] = raised
                         ck.count((label, k, kind, variant, cache), nontrivial=True, bucket=f"fault(small cache):{kind}:{out}")
                         after_fault(sig, path, out, out0, before, after, n, k, kind, thunk, mem0, cache=cache)
+        data_faults(variant, base, base_slot, before, mem0, stored_isos)
     n_runs = stats["runs"]
     # ------------------------------------------------------------------ the observed environments against the pager model
     env_keys = sorted(env_seen, key=str)
@@ -424,10 +578,14 @@ def _run(ck, pg, pgsql, files):
     ck.cov["exhaustive"] = bool(thorough)
     ck.cov["rule"] = ("every public write operation (adsorbate/material upload new + overwrite, deletions, the 9 property/isotherm-type functions, isotherm upload of the three classes with and "
                       "without auto-insert, refused uploads, isotherm deletion by id / by object / of an unknown id, the 3 isotherm-property-type entry points) x every statement index k (thorough, or the operation ran in an environment off a plain connection's defaults: "
-                      "all 0..n; quick: first 6, last 2 and 6 sampled when n > 14) x 5 fault kinds (commit: the two exits) x prior-content variants, with SQLite's default page cache; the same "
+                      "all 0..n; quick: first 6, last 2 and 6 sampled when n > 14) x 7 fault kinds (IntegrityError, InterfaceError, OperationalError, an Exception outside sqlite3.Error, a BaseException that is no Exception "
+                      "- classes taking turns -, exit before / after; quick: another untranslated sqlite3.Error class at one position in three; commit: the two exits) x prior-content variants, with SQLite's default page cache; the same "
                       "positions with a page cache of 1 / 4 / 10 pages (quick: one size drawn per position, the two deaths + one statement fault; thorough / off-default: all sizes, all kinds); "
                       "thorough / off-default: deaths around the last statements of an upload larger than the default cache; each run followed by an independent read-write open "
-                      "(journal playback), integrity_check, foreign_key_check, table comparison, retrieval through *_from_db (quick: every 6th run) and a fault-free retry; distinct = (operation, k, fault kind, variant[, cache size])")
+                      "(journal playback), integrity_check, foreign_key_check, table comparison, retrieval through *_from_db (quick: every 6th run) and a fault-free retry; distinct = (operation, k, fault kind, variant[, cache size]); "
+                      "data faults: 12-13 valid operations per variant x every position of a user value x values the driver / the module rejects (quick: one value per position, taking turns; thorough: all 8 / 3 / 2), "
+                      "no proxy; then integrity, table comparison, retrieval, the repaired operation; distinct = (operation, variant, position, value)")
+    ck.cov["exception_classes_raised_instead_of_a_statement"] = dict(sorted(exc_used.items()))
     ck.assumptions += ["SQLite's rollback journal / fsync / torn pages and death inside sqlite3_step are SQLite's contract, modelled in Model/Pager.lean (journal-before-overwrite, playback of a "
                        "hot journal by the next connection) and exercised with process death between statements and around commit under page caches of 1 / 4 / 10 pages and the default; "
                        "power loss (unsynced writes lost) is covered by the model (`power_atomic`, needs synchronous >= NORMAL, which the harness reads from the live connection) but not exercised"]
